@@ -174,6 +174,11 @@ class StmtMixin:
         elif isinstance(tgt, ast.Subscript):
             self.set_item(self.eval(tgt.value, fr), self.eval(tgt.slice, fr), v)
         elif isinstance(tgt, (ast.Tuple, ast.List)):
+            if isinstance(v, SRef) and self.env.classes[v.cls].get('unpack'):
+                items = [self.get_attr(v, f) for f in self.env.classes[v.cls]['unpack']]
+                for e, x in zip(tgt.elts, items):
+                    self.assign(e, x, fr)
+                return
             items = self.concrete_items(v)
             star = [i for i, e in enumerate(tgt.elts) if isinstance(e, ast.Starred)]
             if star:
